@@ -12,3 +12,5 @@ import TeosVerif.Props.C07
 #print axioms Teos.C07.refund_only_on_completion
 #print axioms Teos.C07.registration_grants
 #print axioms Teos.C07.wire_equals_memory_register
+#print axioms Teos.C07.memory_equals_disk_forever
+#print axioms Teos.C07.refund_persists_what_memory_holds
